@@ -32,7 +32,7 @@ func init() {
 type tblCase struct {
 	NKeys     int    `json:"nkeys"`
 	KeyShape  int    `json:"key_shape"` // 0: 4-byte big endian ints (works with the map loader), 1: variable ascii, 2: binary incl. marker bytes and an empty first key
-	ValShape  int    `json:"val_shape"` // 0 mixed incl nil/empty, 1 non-empty only, 2 large last entry
+	ValShape  int    `json:"val_shape"` // 0 mixed incl nil/empty, 1 non-empty only, 2 large last entry, 3 non-empty with a few nil/empty
 	DataComp  int    `json:"data_comp"`
 	IndexComp int    `json:"index_comp"`
 	Bloom     uint64 `json:"bloom_n"`
@@ -125,6 +125,12 @@ func tblPairs(c tblCase) []kv {
 				v = make([]byte, 20000+r.Intn(5000))
 				r.Read(v)
 			}
+		case 3:
+			// non-empty values with a few empty / nil ones in between (tombstones of a database): the damage oracle
+			// judges the keys with non-empty values only, the empty ones are there to be walked over
+			if r.Intn(4) == 0 {
+				v = pick(r, []byte(nil), []byte{})
+			}
 		}
 		out = append(out, kv{k, v})
 	}
@@ -161,7 +167,10 @@ func tblGen(r *rand.Rand, mode string, thorough bool) tblCase {
 		if thorough {
 			c.NKeys = 1 + r.Intn(12)
 		}
-		c.ValShape = 1
+		c.ValShape = pick(r, 1, 1, 3)
+		if c.ValShape == 3 {
+			c.NKeys += 2
+		}
 		if r.Intn(10) == 0 {
 			c.NKeys = pick(r, 1024, 1025, 1500) // a table beyond a thousand records (positions and replacements are sampled)
 		}
@@ -456,6 +465,9 @@ func readEverything(rd sstables.SSTableReaderI, pairs []kv) string {
 		want[string(p.k)] = p.v
 	}
 	for _, p := range pairs {
+		if len(p.v) == 0 {
+			continue // empty and nil values carry no checksum by format design: outside the statement
+		}
 		v, err := rd.Get(p.k)
 		if err == nil && !bytes.Equal(v, p.v) {
 			return fmt.Sprintf("Get(%x) = %s without error, written %s", headBytes(p.k, 8), recDesc(v), recDesc(p.v))
@@ -474,7 +486,7 @@ func readEverything(rd sstables.SSTableReaderI, pairs []kv) string {
 			if !ok {
 				return fmt.Sprintf("%s returned key %x that was never written (value %s)", name, headBytes(k, 8), recDesc(v))
 			}
-			if !bytes.Equal(v, w) {
+			if len(w) > 0 && !bytes.Equal(v, w) {
 				return fmt.Sprintf("%s returned %s for key %x without error, written %s", name, recDesc(v), headBytes(k, 8), recDesc(w))
 			}
 		}
